@@ -31,6 +31,8 @@ MORE_ADVERSARIAL = [
     "x = 'a_pos=3:1-:2'\nfor i in x:\n    pass\nelse:\n    pass\n",
     "s = '''\n/body/1/_type=For\n/body/1/_pos=1:1-\n/body/1/loopelse/_length=1\n/body/1/loopelse/1/_pos=2:1-3-1-:\n'''\n",
     "x = -b\"it's\"\n",
+    # ordinary comments that look like PEP 484 type comments, where PEP 484 allows none
+    "size = 1\n# type: 1 for a square, 2 for a triangle\nif size:  # type: the size\n    print(size)  # type: ignore\n",
 ]
 
 
@@ -63,17 +65,45 @@ def python_oracle(tree):
                 and kind(n.operand.value) == "Num")
 
     folded_operands = {id(n.operand) for n in ast.walk(tree) if is_neg_literal(n)}
+
+    def counts(n):
+        return hasattr(n, "lineno") and not isinstance(n, ast.alias) and id(n) not in folded_operands
+
+    # line of the last positioned strict descendant in the order of the flat AST (fields in ast order, `body` last for
+    # definitions and classes): since fix 44b0b15 an occurrence starts on the smaller of that line and the node's own
+    last_desc = {}
+
+    def last_in_subtree(n):
+        """Line of the last positioned node of the subtree of n (n included), in flat-AST order; None if none."""
+        fields = list(ast.iter_fields(n))
+        if isinstance(n, (ast.FunctionDef, ast.AsyncFunctionDef, ast.ClassDef)):
+            fields.sort(key=lambda c: c[0] == "body")
+        last = None
+        for _, x in fields:
+            for child in (x if isinstance(x, list) else [x]):
+                if isinstance(child, ast.AST):
+                    sub = last_in_subtree(child)
+                    if sub is not None:
+                        last = sub
+        last_desc[id(n)] = last
+        return last if last is not None else (n.lineno if counts(n) else None)
+
+    last_in_subtree(tree)
     out = collections.Counter()
+    starts = collections.Counter()
     for n in ast.walk(tree):
-        if not hasattr(n, "lineno") or isinstance(n, ast.alias) or id(n) in folded_operands:
+        if not counts(n):
             continue
         if is_neg_literal(n):
-            out[("Num", n.lineno)] += 1
+            ty = "Num"
         elif isinstance(n, ast.Constant):
-            out[(kind(n.value), n.lineno)] += 1
+            ty = kind(n.value)
         else:
-            out[(type(n).__name__, n.lineno)] += 1
-    return out
+            ty = type(n).__name__
+        out[(ty, n.lineno)] += 1
+        ld = last_desc.get(id(n))
+        starts[(ty, n.lineno if ld is None else min(n.lineno, ld))] += 1
+    return out, starts
 
 
 class E2E:
@@ -91,16 +121,28 @@ class E2E:
         r = self.drv.call("c01.spec", tree=fe.export(tree))
         self.ctx.dist("hypothesis treeOk holds on the (tweaked) real tree" if r["wf"] else "hypothesis treeOk FAILS on the (tweaked) real tree")
         spec_nodes = collections.Counter((t, ln) for t, ln in r["nodes"])
-        if spec_nodes != python_oracle(tree):
+        spec_starts = collections.Counter((t, ln) for t, ln in r["starts"])
+        oracle_nodes, oracle_starts = python_oracle(tree)
+        self.ctx.dist("hypothesis lastDescMono (C01_node_starts: every occurrence starts on its node's own line) " +
+                      ("holds" if r["last_desc_mono"] else "FAILS") + " on the (tweaked) real tree")
+        if r["last_desc_mono"] and spec_starts != spec_nodes:
+            self.ctx.broken.append("corr:c01.spec starts differ from own lines although lastDescMono holds")
+        if spec_starts != oracle_starts:
+            self.ctx.broken.append("corr:c01.spec-starts-vs-python-oracle")
+            self.ctx.cov.setdefault("corr_replay", {"stored": ast.unparse(tree)[:400],
+                                                    "spec_minus_oracle": sorted((spec_starts - oracle_starts).elements())[:6],
+                                                    "oracle_minus_spec": sorted((oracle_starts - spec_starts).elements())[:6]})
+        if spec_nodes != oracle_nodes:
             # the Lean specification and the independent Python reading of the property text disagree
             self.ctx.broken.append("corr:c01.spec-vs-python-oracle")
             self.ctx.cov.setdefault("corr_replay", {"stored": ast.unparse(tree)[:400],
-                                                    "spec_minus_oracle": sorted((spec_nodes - python_oracle(tree)).elements())[:6],
-                                                    "oracle_minus_spec": sorted((python_oracle(tree) - spec_nodes).elements())[:6]})
+                                                    "spec_minus_oracle": sorted((spec_nodes - oracle_nodes).elements())[:6],
+                                                    "oracle_minus_spec": sorted((oracle_nodes - spec_nodes).elements())[:6]})
         else:
             self.ctx.dist("c01.spec == independent Python oracle")
         self.ctx.dist("hypotheses of C01_node_labels_pipeline (wfStages6 + wfTweak + treeOk of tweak) " + ("hold" if r["wf_pipeline"] else "FAIL") + " on the real tree")
-        return collections.Counter((t, ln) for t, ln in r["nodes"]), tree
+        # what is compared with the labels: (type, start of the occurrence) — the node's own line under lastDescMono
+        return spec_starts, tree
 
     def got_from_labels(self, labels, exp):
         # `alias`: "import aliases skipped" — no occurrence at all is expected for that type
@@ -130,7 +172,14 @@ class E2E:
             return "skip"
         if isinstance(labels, str):
             return {"exception": labels}
-        if any(n.startswith("ast_construction:") for n, _ in labels):
+        errs = [n for n, _ in labels if n.startswith("ast_construction:")]
+        if errs:
+            # the stored source parses here (`expected` did not raise). An empty program, a literal too long for repr, a
+            # tree too deep are documented refusals; a *syntax error* on a text that CPython parses is not: no tag of
+            # that program matches its syntax tree any more
+            body = ast.parse(stored).body
+            if errs == ["ast_construction:SyntaxError"] or (errs == ["ast_construction:EmptyProgramError"] and body):
+                return {"missing": sorted(exp.elements())[:5], "extra": [], "reported_instead": errs}
             return "skip"
         got = self.got_from_labels(labels, exp)
         if got == exp:
@@ -153,6 +202,16 @@ class E2E:
         except Exception:
             tree = ast.parse("pass")
         feats = {f for f in fe.quirk_features(tree) if f in SIG}
+        try:
+            # a failure that a plain round trip through the tree repairs depends on the comments or on the layout: no
+            # recorded finding (they are all about the tree) explains it, and the tree-level tools would lose it
+            if not self.fails(ast.unparse(ast.parse(src)) + "\n"):
+                ctx.dist("novel-failure (depends on comments or layout)")
+                if len(self.novel) < 4:
+                    self.novel.append((stream, name, src, why))
+                return
+        except Exception:
+            pass
         try:
             clean = neutralise(src, set())
             still = self.fails(clean)
@@ -204,6 +263,7 @@ class E2E:
             })
         for stream, name, src, why in self.novel:
             small = fe.shrink(src, self.fails, budget=120)
+            small = line_shrink(small, self.fails)
             stored, labels = self.direct(small)
             ctx.violations.append({
                 "what": "`node:` labels differ from the positioned nodes of the stored source (not explained by a recorded finding)",
@@ -220,11 +280,33 @@ def decorate(rng, src):
     for l in lines:
         if l.strip() and not l.rstrip().endswith((":", ",", "(", "[", "{", '"""', "'''")) and rng.random() < 0.12 \
                 and l.count('"') % 2 == 0 and l.count("'") % 2 == 0 and "#" not in l and '"""' not in l:
-            l = l + rng.choice(["  # a comment", "  # paroxython: foo", "  # paroxython: +bar:baz"])
+            l = l + rng.choice(["  # a comment", "  # paroxython: foo", "  # paroxython: +bar:baz", "  # type: the size",
+                                "  # type: ignore"])
         out.append(l)
         if rng.random() < 0.08:
-            out.append(rng.choice(["", "    ", "# standalone comment"]))
+            # (comments that merely look like PEP 484 type comments are ordinary comments for `ast.parse(source)`)
+            out.append(rng.choice(["", "    ", "# standalone comment", "# type: 1 for a square, 2 for a triangle",
+                                   "# type: int"]))
     return "\n".join(out)
+
+
+def line_shrink(src, fails, budget=150):
+    """Delete lines one at a time while the program keeps failing (for failures that depend on comments or layout,
+    which the AST-level shrinker cannot keep)."""
+    lines = src.split("\n")
+    i = 0
+    while i < len(lines) and budget > 0 and len(lines) > 1:
+        cand = lines[:i] + lines[i + 1:]
+        budget -= 1
+        try:
+            ok = fails("\n".join(cand))
+        except Exception:
+            ok = False
+        if ok:
+            lines = cand
+        else:
+            i += 1
+    return "\n".join(lines)
 
 
 def parse_tsv(text):
